@@ -37,7 +37,7 @@ def run(report, db, tier):
                      'login table and the arm reads only fields of that '
                      'class')
     paths = shared.name_agreement_ps(report, R7, db, P, S, lr, 'login')
-    pk = ('sym', fi.params[1])
+    pk = ('sym', fi.all_params[1])
     arms = {}
     for p in paths:
         arms.setdefault(shared.arm_of(p, pk), []).append(p)
@@ -130,7 +130,7 @@ def encryption_arm(report, db, M, P, fi, arms):
         report.violation(R, 'enc:missing', fi.path, fi.node, fi.qualname,
                          'no arm for the encryption request')
         return
-    me, pk = sy(fi.params[0]), sy(fi.params[1])
+    me, pk = sy(fi.all_params[0]), sy(fi.all_params[1])
     conn = at(me, 'connection')
     prob = {}
 
@@ -383,7 +383,7 @@ def wrapper_roles(db, S, ci):
         m = db.find_method(ci, mname)
         if m is None:
             continue
-        me = sy(m.params[0])
+        me = sy(m.all_params[0])
         for p in S.run(m):
             for e in p.flat(('call',)):
                 recv = e.fn[1] if e.fn[0] == 'attr' else e.fn[2] \
@@ -407,7 +407,7 @@ def compression_arm(report, db, M, fi, arms):
         report.violation(R, 'comp:missing', fi.path, fi.node, fi.qualname,
                          'no arm for set compression')
         return
-    me, pk = sy(fi.params[0]), sy(fi.params[1])
+    me, pk = sy(fi.all_params[0]), sy(fi.all_params[1])
     opts = at(me, 'connection', 'options')
     for p in ps:
         stores = {e.attr: e.value for e in p.flat(('store',))
@@ -479,7 +479,7 @@ def switches_quiet(report, db, S, M, cg, fi, paths, rid='R10.2q'):
     R = report.rule(rid, 'a change of framing (compression, cipher) applies '
                     'to everything that follows: the arm writes nothing '
                     'before the switch but the encryption response')
-    me = sy(fi.params[0])
+    me = sy(fi.all_params[0])
     opts = at(me, 'connection', 'options')
     conn = at(me, 'connection')
     shared.switch_is_quiet(
@@ -510,7 +510,7 @@ def plugin_arm(report, db, M, P, fi, arms):
                          'no arm for login plugin requests: the server '
                          'waits for a response forever')
         return
-    pk = sy(fi.params[1])
+    pk = sy(fi.all_params[1])
     for p in ps:
         if not p.returns:
             continue
@@ -552,7 +552,7 @@ def success_arm(report, db, M, fi, arms):
         report.violation(R, 'success:missing', fi.path, fi.node,
                          fi.qualname, 'no arm for login success')
         return
-    conn = at(sy(fi.params[0]), 'connection')
+    conn = at(sy(fi.all_params[0]), 'connection')
     for p in ps:
         st = [e for e in p.flat(('store',)) if struct(e.base) == conn
               and e.attr == 'reactor']
@@ -597,7 +597,7 @@ def disconnect_arm(report, db, S, M, fi, arms):
                          'no arm for a disconnect during login: the '
                          'rejection passes silently')
         return
-    pk = sy(fi.params[1])
+    pk = sy(fi.all_params[1])
     vm = M.conn_method('_version_mismatch')
     if S.never_returns(vm):
         report.ok(R, '_version_mismatch raises on every path')
@@ -732,7 +732,7 @@ def stateless(report, db, M, fi, paths):
     R = report.rule('R10.6', 'the dispatch is stateless: react keeps no '
                     'state of its own between packets, so per-arm facts '
                     'cover every order of steps')
-    me = sy(fi.params[0])
+    me = sy(fi.all_params[0])
     stores = {}
     reads = {}
     for p in paths:
